@@ -409,7 +409,7 @@ theorem MirrorInv.step (o : List Addr) (s s' : Sys) (m : Msg) (rest subs : List 
       · have : a = swapA := by have := hs x hin; rw [hxe] at this; exact this
         rw [← own]; exact internal_not_owner w' a (by rw [this]; simp [internal])
       · exact restSenders x hin a b c d hxe
-  | hub s1 sender funds hm heq h1 hc hx' b t r d g =>
+  | hub s1 sender funds hm heq h1 _ hc hx' b t r d g =>
     have cfg : HubSt.SameConfig s.hub s'.hub := by
       rcases hubExec_config _ _ _ _ _ _ _ hx' with c | c | c
       · exact c
